@@ -279,11 +279,24 @@ def run(rep, pool, driver, tier):
         ec = [r.choice(gen.CUES) for _ in range(r.randint(1, 4))]
         eo = r.sample(gen.OUTS, r.randint(0, 2))
         tasks.append(dict(gen.params(r), op='step_delta', rows=rows, event=[ec, eo], policy=policy))
+    # the same step taken by the parallel learners continuing from the labelled matrix (seeded change C12_d: rows
+    # of outcomes the extra event does not mention were no longer updated); more outcomes than one work item
+    rs = rng('C12/step_ndl')
+    for i in range(30 if quick else 300):
+        outs = rs.sample(gen.OUTS_M, rs.randint(2, 14))
+        cues = rs.sample(gen.CUES, rs.randint(1, 5))
+        rows = [[o, [[c, '%d/%d' % (rs.randint(-8, 8), rs.choice([1, 2, 4]))] for c in cues]] for o in outs]
+        ec = [rs.choice(gen.CUES) for _ in range(rs.randint(1, 4))]
+        eo = rs.sample(gen.OUTS_M, rs.randint(1, 2))          # a few of the known outcomes, or new ones
+        tasks.append(dict(gen.params(rs), op='step_delta', rows=rows, event=[ec, eo], policy=rs.choice(['dedup', 'keep']),
+                          learner=rs.choice(['ndl_threading', 'ndl_openmp']), n_jobs=rs.choice([1, 2, 3]),
+                          per_job=rs.choice([1, 2, 10])))
     for t, res in zip(tasks, pool.map(tasks)):
         rep.case({k: v for k, v in t.items() if k != 'op'}, nontrivial=True, stream='step_delta')
         if 'err' in res or res['bad']:
             rep.violation({'what': 'one further learning step does not change the weights by multiplicity*alpha*beta*(target - activation): %r'
                                    % (res.get('bad') or res), 'input': t,
-                           'theorem_or_stream': 'C12 step_delta on dict_ndl + activation()'})
+                           'theorem_or_stream': 'C12 dict_step_delta / ndl_step_delta on %s + activation()' % t.get('learner', 'dict_ndl')})
         else:
             rep.count('step_delta_cells_checked', res['n_cells'])
+            rep.count('step_delta_learner:' + t.get('learner', 'dict_ndl'))
